@@ -82,7 +82,10 @@ func probesFor(r *rand.Rand, keys []string) []string {
 		if lim < len(keys) {
 			k = keys[r.Intn(len(keys))]
 		}
-		ps = append(ps, k, k+"x", k+"\x00")
+		ps = append(ps, k, k+"x", k+"\x00", k+"\x00\x00\x00")
+		if len(k) > 8 {
+			ps = append(ps, k[:8]) // the first machine word of a longer key
+		}
 		if len(k) > 0 {
 			ps = append(ps, k[:len(k)-1], k[1:])
 			b := []byte(k)
